@@ -50,6 +50,7 @@ def run(ctx, chk):
     muldiv_value_rule(ctx, chk, tabs)
     chk.rule("C03.R12", "CF = OF = the upper half of the product is significant (condition of the helper's flag branch as a closed form)", floor=4)
     muldiv_flag_rule(ctx, chk, tabs)
+    aam_aad_value_rule(ctx, chk)
     for nt in tabs:
         width = 8 if nt.startswith("byte") else 16
         wn = "byte" if width == 8 else "word"
@@ -544,7 +545,7 @@ def muldiv_flag_rule(ctx, chk, tabs):
                     return (p.eval(env) >> w) != 0
             else:
                 p = Lin(0, ((opaque("mul", ax.sx(w) if w == 16 else ax.sx(8), v.sx(w)), 1),))
-                want = None
+                want = ("nonzero", p.sub(p.sx(w)).simplify(ranges))   # the product is not the sign extension of its lower half
 
                 def spec(env, p=p):
                     x = p.eval(env)
@@ -587,3 +588,79 @@ def muldiv_flag_rule(ctx, chk, tabs):
                     text = (f"{f} after {m.upper()} is set iff [{_pred_show(have)}]; the manual sets it iff the upper half of the product is significant. For " +
                             ", ".join(f"{k}={hex(v_)}" for k, v_ in sorted(wit.items())) + f" the helper gives {int(_eval_pred(have, wit))}, the manual {int(spec(wit))}")
                     chk.violation("C03.R12", unit, f"{f}-condition", f"{fn['name']}: {text}", where, witness=text)
+
+
+def aam_aad_value_rule(ctx, chk):
+    """C03.R11/R12 for AAM and AAD, which are plain arithmetic: AAM: AH = AL / 10, AL = AL % 10; AAD: AL = (AL + 10*AH) mod 256,
+    AH = 0; both set SF and ZF from the new AL (manual: "according to the result in AL")."""
+    from domains import Lin, opaque
+    from rules_c01 import bool_flag_map, _norm_pred, _negate, _compare_preds, _pred_show, _eval_pred
+    P = ctx.program
+    ax = Lin.atom("ax")
+    al, ah = ax.mod(256), None
+    from domains import shr_lin
+    ah = shr_lin(ax, 8)
+    ten = Lin(10)
+    specs = {
+        "aam": (Lin(0, ((opaque("div", al, ten), 256), (opaque("rem", al, ten), 1))), Lin(0, ((opaque("rem", al, ten), 1),))),
+        "aad": (al.add(ah.scale(10)).mod(256), al.add(ah.scale(10)).mod(256)),
+    }
+    for name, (want_ax, new_al) in specs.items():
+        fn = P.find("lib", f"instructions::arithmetic::{name}")
+        if fn is None:
+            chk.undecided_("C03.R11", name, "helper not found")
+            continue
+        where = fn_where(fn)
+        try:
+            s = summarize_fn(ctx, fn)
+        except Unsupported as e:
+            chk.undecided_("C03.R11", name, str(e))
+            continue
+        ranges = s.I.atom_ranges()
+        got = s.regs["ax"]
+        if got.kind != "int" or got.aff is None:
+            chk.undecided_("C03.R11", f"{name}:AX", "AX has no closed form after the instruction")
+        else:
+            have, wnt = got.aff.simplify(ranges), want_ax.simplify(ranges)
+            if have == wnt:
+                chk.ok("C03.R11", f"{name}:AX", have.pretty())
+            else:
+                wit = None
+                for v in (0, 1, 9, 10, 11, 99, 100, 127, 128, 255, 0x0100, 0x0909, 0x1900, 0x19FF, 0x7FFF, 0x8000, 0xFF00, 0xFFFF):
+                    if have.eval({"ax": v}) % 65536 != wnt.eval({"ax": v}) % 65536:
+                        wit = v
+                        break
+                if wit is None:
+                    chk.undecided_("C03.R11", f"{name}:AX", f"{have.pretty()} not comparable with {wnt.pretty()}")
+                else:
+                    text = f"AX after {name.upper()} is {have.pretty()}, the manual gives {wnt.pretty()}; e.g. ax={wit:#x}: {have.eval({'ax': wit}) % 65536:#x} instead of {wnt.eval({'ax': wit}) % 65536:#x}"
+                    chk.violation("C03.R11", name, "ax-value", f"{fn['name']}: {text}", where, witness=text)
+        decided = {}
+        for e in s.I.events:
+            if e.kind == "call" and getattr(e, "fref", None) and e.fref.get("local"):
+                for bit, (path, pol) in bool_flag_map(ctx, e).items():
+                    v = e.args[path[0]] if len(path) == 1 else e.args[path[0]].fields[path[1]]
+                    decided[bit] = (v, pol)
+        spec = {"ZF": ("zero", new_al.simplify(ranges)), "SF": ("pos", new_al.sub(Lin(127)).simplify(ranges))}
+        for f in ("ZF", "SF"):
+            u = f"{name}:{f}"
+            if FBIT[f] not in decided:
+                chk.undecided_("C03.R12", u, "no boolean handed to a flag routine decides this flag")
+                continue
+            v, pol = decided[FBIT[f]]
+            have = _norm_pred(v, ranges)
+            if have is not None and pol == 0:
+                have = _negate(have)
+            if have is None:
+                chk.undecided_("C03.R12", u, "the flag's boolean has no closed form")
+                continue
+            r = _compare_preds(have, spec[f], ranges)
+            if r == "equal":
+                chk.ok("C03.R12", u, _pred_show(have))
+            elif r == "unknown":
+                chk.undecided_("C03.R12", u, f"[{_pred_show(have)}] agrees with [{_pred_show(spec[f])}] on the grid of boundary operands; the forms differ")
+            else:
+                env = r[1]
+                text = (f"{f} after {name.upper()} is [{_pred_show(have)}]; the manual sets it from the new AL: [{_pred_show(spec[f])}]; they differ for " +
+                        ", ".join(f"{k}={v_:#x}" for k, v_ in sorted(env.items())) + f": {int(_eval_pred(have, env))} instead of {int(_eval_pred(spec[f], env))}")
+                chk.violation("C03.R12", name, f"{f}-condition", f"{fn['name']}: {text}", where, witness=text)
